@@ -125,16 +125,20 @@ Definition ex_pkt (m : list N) (chf : N) : pkt :=
         [mkHop false false 63 0 5 [0; 0; 0; 0; 0; 0] 0; mkHop false false 63 1 2 m 0;
          mkHop false false 63 9 0 [0; 0; 0; 0; 0; 0] 0].
 Example C08_example :
-  (exists out, process (total ex_mac) ex_cfg 2000000000000 (InExt 1) (ex_pkt (ex_mac 7 1000 63 1 2) 1)
-               = Forward 2 out None /\ fwd_wf out = true /\ p_curr_hf out = 2) /\
-  (exists p', process (total ex_mac) ex_cfg 2000000000000 (InExt 1) (ex_pkt [1; 1; 1; 1; 1; 1] 1)
-              = SlowPath (SpScmp 4 51 60) 0 p' /\
-     match slow_path (fun _ => None) ex_cfg (InExt 1) (SpScmp 4 51 60) 0
-                     (mkSpin p' false 0 0 17 (repeat 0 84)) false 0 with
-     | SReply r => geom_ok r = true /\ total_len r = 164
-     | _ => False
-     end) /\
+  match process (total ex_mac) ex_cfg 2000000000000 (InExt 1) (ex_pkt (ex_mac 7 1000 63 1 2) 1) with
+  | Forward 2 out None => fwd_wf out = true /\ p_curr_hf out = 2
+  | _ => False
+  end /\
+  match process (total ex_mac) ex_cfg 2000000000000 (InExt 1) (ex_pkt [1; 1; 1; 1; 1; 1] 1) with
+  | SlowPath (SpScmp 4 51 60) 0 p' =>
+    match slow_path (fun _ => None) ex_cfg (InExt 1) (SpScmp 4 51 60) 0
+                    (mkSpin p' false 0 0 17 (repeat 0 84)) false 0 with
+    | SReply r => geom_ok r = true /\ total_len r = 176
+    | _ => False
+    end
+  | _ => False
+  end /\
   process (total ex_mac) ex_cfg 2000000000000 (InExt 1) (ex_pkt [] 63) = Discard /\
   process (total ex_mac) ex_cfg 2000000000000 InInt
           (mkPkt 1 2 0 0 [] [] 0 0 None 3 0 2 0 0 0 [] []) = BadInput.
-Proof. vm_compute. repeat split; try reflexivity; eexists; repeat split; reflexivity. Qed.
+Proof. vm_compute. repeat split; reflexivity. Qed.
